@@ -248,6 +248,7 @@ fn main() {
                 }
             }
             static PANIC_NEXT: AtomicBool = AtomicBool::new(false);
+            thread_local! { static REST: std::cell::Cell<(bool, usize, usize, usize)> = const { std::cell::Cell::new((false, 0, 0, 0)) }; }
             struct Wrap(#[allow(dead_code)] deadpool::managed::Object<M>);
             impl From<deadpool::managed::Object<M>> for Wrap {
                 fn from(o: deadpool::managed::Object<M>) -> Self {
@@ -274,6 +275,11 @@ fn main() {
                         let r = tokio::spawn(async move { p2.timeout_get(&z).await.map(|_| ()) }).await;
                         assert!(r.is_err(), "the conversion was scripted to panic");
                     }
+                    // at rest after the two unwound calls: status() must be exact (C11)
+                    let st = pool.status();
+                    let live_now = live.load(Ordering::SeqCst);
+                    let rest_ok = st.waiting == 0 && st.available == st.size && st.size == live_now && st.size <= max;
+                    REST.with(|r| r.set((rest_ok, st.size, st.available, st.waiting)));
                     let mut held = Vec::new();
                     for _ in 0..max + 2 {
                         if let Ok(w) = pool.timeout_get(&zero).await {
@@ -286,15 +292,120 @@ fn main() {
                     (n, l)
                 });
                 let st = pool.status();
-                let ok = holders.0 <= max && holders.1 <= max;
+                let rest = REST.with(|r| r.get());
+                let end_ok = st.waiting == 0 && st.available == st.size && st.size == live.load(Ordering::SeqCst) && st.size <= max;
+                let ok = holders.0 <= max && holders.1 <= max && rest.0 && end_ok;
                 lines.push(format!(
-                    "wrapper max={} holders={} live={} creates={} size={} ok={}",
-                    max, holders.0, holders.1, created.load(Ordering::SeqCst), st.size, ok as u8
+                    "wrapper max={} holders={} live={} creates={} size={} rest_after_panics=(size {}, available {}, waiting {}) rest_at_end=(size {}, available {}, waiting {}) ok={}",
+                    max, holders.0, holders.1, created.load(Ordering::SeqCst), st.size, rest.1, rest.2, rest.3, st.size, st.available, st.waiting, ok as u8
                 ));
             }
             for l in lines {
                 writeln!(out, "{}", l).unwrap();
             }
+            out.flush().unwrap();
+        }
+        "close-race-check" => {
+            // C06 on real threads: `close()` racing `resize()` and the return of an object, with
+            // no scheduler in between. The windows exercised here lie *inside* what the model
+            // treats as one critical section of close() (semaphore closed, max_size 0, idle
+            // objects released - all under one lock), where the hooks offer no schedule point.
+            // On code where close() is one critical section and resize() checks the closed flag
+            // under the same lock the outcome is the same in every interleaving.
+            use std::sync::{atomic::{AtomicUsize, Ordering}, Arc, Barrier, Mutex};
+            struct Obj {
+                id: usize,
+                destroyed: Arc<Mutex<Vec<usize>>>,
+            }
+            impl Drop for Obj {
+                fn drop(&mut self) {
+                    self.destroyed.lock().unwrap().push(self.id);
+                }
+            }
+            struct Mgr {
+                next: AtomicUsize,
+                destroyed: Arc<Mutex<Vec<usize>>>,
+            }
+            impl deadpool::managed::Manager for Mgr {
+                type Type = Obj;
+                type Error = ();
+                async fn create(&self) -> Result<Obj, ()> {
+                    Ok(Obj { id: self.next.fetch_add(1, Ordering::SeqCst), destroyed: self.destroyed.clone() })
+                }
+                async fn recycle(&self, _: &mut Obj, _: &deadpool::managed::Metrics) -> deadpool::managed::RecycleResult<()> {
+                    Ok(())
+                }
+            }
+            let trials: u64 = arg(&args, "--trials").and_then(|s| s.parse().ok()).unwrap_or(3000);
+            let rt = tokio::runtime::Builder::new_current_thread().enable_all().build().unwrap();
+            let mut bad = 0usize;
+            let mut first = String::new();
+            for t in 0..trials {
+                let destroyed: Arc<Mutex<Vec<usize>>> = Arc::default();
+                let pool = deadpool::managed::Pool::<Mgr>::builder(Mgr { next: AtomicUsize::new(0), destroyed: destroyed.clone() })
+                    .max_size(2)
+                    .build()
+                    .unwrap();
+                let (a, b) = rt.block_on(async { (pool.get().await.unwrap(), pool.get().await.unwrap()) });
+                drop(b); // one idle, one checked out
+                let bar = Arc::new(Barrier::new(3));
+                let (p1, p2, b1, b2, b3) = (pool.clone(), pool.clone(), bar.clone(), bar.clone(), bar.clone());
+                let spin = (t % 7) as u32 * 40;
+                let h1 = std::thread::spawn(move || {
+                    b1.wait();
+                    for _ in 0..spin { std::hint::spin_loop(); }
+                    p1.close();
+                });
+                let h2 = std::thread::spawn(move || {
+                    b2.wait();
+                    for _ in 0..6 {
+                        p2.resize(3);
+                    }
+                });
+                // the checked-out object comes back during the race in every other trial
+                let early = t % 2 == 0;
+                let h3 = std::thread::spawn(move || {
+                    b3.wait();
+                    if early {
+                        drop(a);
+                        None
+                    } else {
+                        Some(a)
+                    }
+                });
+                h1.join().unwrap();
+                h2.join().unwrap();
+                let late = h3.join().unwrap();
+                let mut problems: Vec<String> = Vec::new();
+                let st = pool.status();
+                if !pool.is_closed() {
+                    problems.push("close() returned, is_closed() is false".into());
+                }
+                if st.max_size != 0 {
+                    problems.push(format!("close() returned, status().max_size = {}", st.max_size));
+                }
+                drop(late);
+                let st = pool.status();
+                let mut d = destroyed.lock().unwrap().clone();
+                d.sort();
+                if d != [0, 1] {
+                    problems.push(format!("after close() and the return of the checked-out object the destroyed objects are {:?}, expected [0, 1]", d));
+                }
+                if st.size != 0 || st.max_size != 0 {
+                    problems.push(format!("the closed pool reports {:?} after the last object came back", st));
+                }
+                if rt.block_on(async { pool.get().await }).is_ok() {
+                    problems.push("get() on the closed pool returned an object".into());
+                }
+                if !problems.is_empty() {
+                    bad += 1;
+                    if first.is_empty() {
+                        first = format!("trial {t} (close() || 6 x resize(3) || {} of the checked-out object): {}",
+                            if early { "return" } else { "later return" }, problems.join(" | "));
+                    }
+                }
+            }
+            writeln!(out, "closerace trials={trials} bad={bad} first={first}").unwrap();
             out.flush().unwrap();
         }
         "outlive-check" => {
